@@ -239,7 +239,7 @@ def run_families(ctx, plans, relevant):
             steps = gen.pop('steps')
             g = export_graph(ctx, model, fam_name, steps, slots=gen.pop('slots', 1),
                              force_sets=gen.pop('force_sets', 'small'), **gen)
-            cover, ncov = g.cover(maxlen=max(steps + 4, 10), rng=ctx.rng, limit=plan.get('cover_limit', 6000))   # (a full edge cover of the larger thorough instances is hours of replay)
+            cover, ncov = g.cover(maxlen=max(steps + 4, 10), rng=ctx.rng, limit=plan.get('cover_limit', 2500))   # (a full edge cover of the larger thorough instances is hours of replay)
             walks = [g.walk(ctx.rng, plan.get('walk_len', 12)) for _ in range(plan.get('walks', 0))]
             ctx.count('graph_edges', len(g.edges))
             ctx.count('graph_states', g.n_states())
